@@ -191,3 +191,43 @@ pub fn satisfying(total: u32, pred: impl Fn(u32) -> bool) -> u32 {
         }
     }
 }
+
+/// An arbitrary value in `0..n`; the native explorer only enumerates `0..min(n, cap)` (used where the symbolic domain
+/// is far too large to enumerate: the explorer is a replay aid, the solver covers the whole domain).
+#[inline(never)]
+pub fn below_capped(n: u32, _cap: u32) -> u32 {
+    #[cfg(kani)]
+    {
+        let v: u32 = kani::any();
+        kani::assume(v < n);
+        v
+    }
+    #[cfg(not(kani))]
+    {
+        let d = if native::is_raw() { n } else { n.min(_cap) };
+        let v = native::next(d as u64) as u32;
+        assume(v < n);
+        v
+    }
+}
+
+/// An arbitrary ASCII byte (< 128); the native explorer only enumerates the bytes of `alphabet`.
+#[inline(never)]
+pub fn ascii_byte(_alphabet: &[u8]) -> u8 {
+    #[cfg(kani)]
+    {
+        let v: u8 = kani::any();
+        kani::assume(v < 128);
+        v
+    }
+    #[cfg(not(kani))]
+    {
+        if native::is_raw() {
+            let v = native::next(128) as u8;
+            assume(v < 128);
+            v
+        } else {
+            _alphabet[native::next(_alphabet.len() as u64) as usize]
+        }
+    }
+}
